@@ -252,7 +252,7 @@ func oracleWorld(stream, in, out string) {
 			continue
 		}
 		if w != nil {
-			if t[0] == "scope" || t[0] == "gw" || t[0] == "xds" {
+			if t[0] == "scope" || t[0] == "gw" || t[0] == "xds" || t[0] == "xdsgw" {
 				w.queries = append(w.queries, t)
 			} else {
 				w.apply(t)
